@@ -1,7 +1,7 @@
 SPECIFICATION Spec
 CONSTANTS
   G = 1
-  N = 1
+  N = 2
   NT = 1
   DS = {1}
   FS = {1}
